@@ -81,6 +81,7 @@ func checkC06(c *Ctx) {
 	r.Rule("C06.de", "offside comparison table and affine column tracking: closed forms", 14)
 	r.Rule("C06.abc", "confinement of SPACE tokens, absolute offsets and columns (frozen who-may-reference tables)", 15)
 	r.Rule("C06.a", "nextToken never returns a SPACE token", 1)
+	r.Rule("C06.i", "a continuation token found after skipping line ends is accepted only inside the offside line", 2)
 	r.Rule("C06.g", "the state given to psPushOffside never has a line-end as its current token", 1)
 	f := c.LoadFC("fc")
 	if f == nil {
@@ -176,6 +177,8 @@ func checkC06(c *Ctx) {
 
 	// (g)
 	checkNOL(c, f)
+	// (i)
+	checkContinuationColumns(c, f)
 }
 
 func fieldOwner(f *FC, v *types.Var) string {
